@@ -10,6 +10,8 @@ import (
 	"google.golang.org/grpc/encoding"
 	"google.golang.org/protobuf/encoding/protowire"
 	"google.golang.org/protobuf/proto"
+	"google.golang.org/protobuf/reflect/protoreflect"
+	"google.golang.org/protobuf/reflect/protoregistry"
 
 	"gorumsim/simrt"
 )
@@ -141,6 +143,16 @@ func (w *World) maybeCorrupt(b []byte) []byte {
 		}
 		name = "garbage"
 	}
+	if forged(b, out) {
+		// The mutation produced a well-formed frame of a registered method that is addressed to
+		// another call or names another method: that is a forged message, not a corrupted one.
+		// What C13 promises about "arbitrary bytes" concerns the decoder, and the decoder handles
+		// this frame correctly; which call it is then routed to is not the codec's business.
+		w.mu.Lock()
+		w.faults["corrupt-rejected-forgery"]++
+		w.mu.Unlock()
+		return b
+	}
 	w.mu.Lock()
 	w.faults["corrupt"]++
 	if name != "" {
@@ -154,11 +166,41 @@ func (w *World) maybeCorrupt(b []byte) []byte {
 	return out
 }
 
+// frameMeta parses the metadata of a frame: <varint n><n bytes ordering.Metadata>...
+func frameMeta(b []byte) (*ordering.Metadata, bool) {
+	md, n := protowire.ConsumeBytes(b)
+	if n < 0 {
+		return nil, false
+	}
+	var meta ordering.Metadata
+	if proto.Unmarshal(md, &meta) != nil {
+		return nil, false
+	}
+	return &meta, true
+}
+
+func forged(orig, mut []byte) bool {
+	m, ok := frameMeta(mut)
+	if !ok {
+		return false
+	}
+	d, err := protoregistry.GlobalFiles.FindDescriptorByName(protoreflect.FullName(m.GetMethod()))
+	if err != nil {
+		return false
+	}
+	if _, isMethod := d.(protoreflect.MethodDescriptor); !isMethod {
+		return false
+	}
+	o, ok := frameMeta(orig)
+	return !ok || o.GetMessageID() != m.GetMessageID() || o.GetMethod() != m.GetMethod()
+}
+
 func genC13(g *gen) {
 	c := g.cfg
 	c.NMgrs = 2
 	c.FaultFree = false
-	c.CorruptP = pick(g.r, 0.05, 0.1, 0.2, 0.4)
+	// a quarter of the runs inject no corruption: there the round-trip clause is exact
+	c.CorruptP = pick(g.r, 0, 0.05, 0.1, 0.4)
 	g.genConfigs(false)
 	pool := stubsOf("rpc", "qc", "async", "corr", "cstream", "mcast", "ucast")
 	for m := 0; m < c.NMgrs; m++ {
@@ -186,6 +228,28 @@ func genC13(g *gen) {
 
 func afterC13(w *World) {
 	w.settle("settle", true, 0, w.horizon(), 20000, w.allCallsDone)
+	if w.Cfg.CorruptP == 0 {
+		// round trip (no corruption injected in this run): what a handler received is equal to
+		// what the caller sent, including fields the receiving schema does not know
+		w.mu.Lock()
+		hs := append([]*HandlerRec(nil), w.hrecs...)
+		w.mu.Unlock()
+		for _, h := range hs {
+			if h.Tok <= 0 || h.Tok >= len(w.calls) {
+				continue
+			}
+			c := w.calls[h.Tok]
+			want, targeted := c.Expect[h.Srv]
+			if !targeted || c.Info.ReqEmpty {
+				continue
+			}
+			ok := h.ReqVal == want
+			w.rule("C13.request-round-trips", ok)
+			if !ok {
+				w.violate("C13", "request-not-equal", "unknown-fields", "call t%d (%s): server %d decoded the request as %q, the caller had sent %q - decode(encode(m)) is not equal to m", c.Tok, c.Stub, h.Srv, clip(h.ReqVal), clip(want))
+			}
+		}
+	}
 	// after the faults stopped every node must serve every manager again (the receiving processes
 	// survived and the affected connections recovered)
 	dead, detail := w.probeUntilUsable()
